@@ -185,6 +185,18 @@ class Fn:
     def is_own(self, bb):
         return not self.blocks[bb].get("origin")
 
+    def inlined_names(self):
+        """names of the crate-local helpers whose bodies were spliced into this view"""
+        out = set()
+        for b in self.blocks:
+            o = b.get("origin")
+            if o:
+                out.add(o)
+            ob = b.get("orig_bb")
+            if ob and ob[0] != self.name:
+                out.add(ob[0])
+        return out
+
     def own_blocks(self):
         return [b for b in self.blocks if not b.get("origin")]
 
